@@ -3,6 +3,9 @@
 // content is the 8192 bytes at offset id * 8192.
 pub open spec fn byte_bit(b: u8, k: int) -> bool { ((b >> (k as u8)) & 1u8) == 1u8 }
 
+/// the page image Meta::encode_page produces (uninterpreted here; its round trip through decode_page is Kani harness c18_meta_roundtrip)
+pub uninterp spec fn meta_image(m: Meta) -> Seq<u8>;
+
 impl Bitmap {
     #[verifier::opaque]
     pub open spec fn bit(&self, i: int) -> bool
@@ -16,7 +19,9 @@ impl Pager {
     pub open spec fn next(&self) -> int { self.meta.next_page_id as int }
     pub open spec fn bytes(&self) -> Seq<u8> { file_bytes(&self.file) }
     /// the bitmap page stored in the file is the in-memory bitmap (what a reopen will load)
-    pub open spec fn disk_synced(&self) -> bool { self.bytes().len() >= 16384 && self.bytes().subrange(8192, 16384) == self.bitmap.data@ }
+    pub open spec fn disk_synced(&self) -> bool {
+        self.bytes().len() >= 16384 && self.bytes().subrange(8192, 16384) == self.bitmap.data@ && self.bytes().subrange(0, 8192) == meta_image(self.meta)
+    }
     /// representation invariant of the allocator
     pub open spec fn wf(&self) -> bool {
         &&& 2 <= self.next() <= 65536
